@@ -26,7 +26,7 @@ class e2e_determinism:
     bounded_only = True
     gen = Y.gen_determinism
     native_call = Y.run_twice
-    n_quick = 5
+    n_quick = 8
     n_thorough = 60
     ensures = {
         # with SOURCE_DATE_EPOCH fixed the output bytes do not depend on argv order, hash seed,
